@@ -242,12 +242,16 @@ def check(v, wd, props=None):
     v.cov["traces_validated_against_impl"] += stats["test_processes_with_events"]
     v.cov["suite_executions"] = stats
     excused = 0
+    reported = set()
     for who, guard, ev in flags:
         if GUARD_PROP.get(guard) not in props:
             continue
         if any(h["test"] == who and guard in h["guards"] for h in HANDMADE):
             excused += 1
             continue
+        if (who, guard) in reported:
+            continue        # the first false step of a guard in an execution is the finding; later ones follow from it
+        reported.add((who, guard))
         v.violation(f"execution of the repository's test {who}: {guard} is false at {ev}",
                     {"engine": "suite", "test": who, "guard": guard, "event": ev})
     v.cov["suite_executions"]["handmade_logs_excused"] = excused
@@ -265,3 +269,28 @@ def replay(prop, path, case):
         print(f"VIOLATION property={prop} replay={path}")
         return 1
     return 0
+
+
+def histories_flags(wd, results, name="system"):
+    """whole-system executions recorded by the harness's `fidelity` engine (the log in file order), every stream, against
+    the monitor in its strict form -> (list of (history id, guard, event), TlcResult)"""
+    sev, sowner = [], []
+    for res in results:
+        sev.append({"ev": "reset", "case": res["id"]})
+        sowner.append(res["id"])
+        for o in res["order"]:
+            sev.append(frame_event({"stream_kind": o.get("kind") or "session", "type": o["type"], "stream_id": o["sid"], "seq": o["seq"],
+                                    "run_session_id": o.get("r"), "message_id": o.get("m"), "id": o.get("m"), "job_id": o.get("j"), "status": o.get("st")}))
+            sowner.append(res["id"])
+    p = os.path.join(wd, name + ".ndjson")
+    write_ndjson(p, sev)
+    r, rej = tlc.validate_trace("SystemTrace", "SystemTrace_strict.cfg", p, timeout=900, heap="4g")
+    if rej or r.errors or r.violated or r.timed_out:
+        log(r.out[-3000:])
+        die_tool(f"SystemTrace failed: {rej or r.errors or r.violated}")
+    flags = []
+    for tag, val in r.prints:
+        if tag == "BAD":
+            for line, guard in val:
+                flags.append((sowner[line - 1], guard, sev[line - 1]))
+    return flags, r
